@@ -49,6 +49,13 @@ CHECKS = {
         design_ref="DESIGN.md §4 C17",
         note="Integers only; == on values; the monitor sees exactly what the rule emitted (read back from its output).",
     ),
+    "C16": dict(
+        technique="runtime trace monitor: statement shapes instrumented with effectful probes are executed under all valuations of their unknown conditions before and after each consumer rule; is_blocking / has_side_effect probed directly in their sound direction",
+        category="exploration",
+        text="6.7k enumerated shapes of nesting depth <= 2 (if/elif/else, while/for with else, with, try/except/else/finally, return, raise, break, continue, assert over constant and unknown conditions; all in thorough, a 1.5k sample in quick), 336 pointless-statement candidates (an effectful call buried in comprehensions, conditional expressions, f-strings, subscripts, bool-ops, ...) and random depth-3 shapes are each followed by an observable statement; the trace (probe ids, return value, exception class) under all 24 valuations must be unchanged by delete_unreachable_code, delete_pointless_statements, remove_redundant_else, swap_if_else, breakout_common_code_in_ifs, remove_dead_ifs and six more rules, and by format_code(safe=True) with step attribution.",
+        design_ref="DESIGN.md §4 C16",
+        note="Unknowns range over {False, True} and {[], [1], [1, 2]}; probes capped at 40 events and spinning loops cut by a CPU timer (same verdict on both sides).",
+    ),
 }
 
 NOT_YET = {}
